@@ -75,7 +75,17 @@ AUTH_MODELS = [
     {"name": "auth", "module": "Auth.tla", "cfg": "MC_Auth.cfg", "setup": "setups/auth.json", "env": {"AUTH_BASE": "gen/auth_base.json"}},
 ]
 
+ADMIN_DRIVERS = [{"name": "admin", "args": {"quick": [240], "thorough": [6000]}}]
+ADMIN_MODELS = [
+    {"name": "admin", "module": "Admin.tla", "cfg": {"quick": "MC_AdminQuick.cfg", "thorough": "MC_AdminThorough.cfg"},
+     "setup": "setups/auth.json", "init_from_setup": True},
+]
+
 PROPS = {
+    "C12": risk_prop2(["configure_bank", "configure_interest", "configure_limits", "configure_emode", "clone_emode", "setup_emissions", "update_emissions",
+                       "tokenless_complete", "write_metadata", "configure_oracle", "set_fixed_price", "tx"], ADMIN_DRIVERS, models=ADMIN_MODELS, minnt=200),
+    "C19": risk_prop2(["collect_fees", "withdraw_fees", "withdraw_fees_perm", "withdraw_insurance", "settle_emissions", "withdraw_emissions",
+                       "withdraw_emissions_perm", "deposit", "withdraw"], ADMIN_DRIVERS + LEDGER_DRIVERS, models=LEDGER_MODELS, minnt=200),
     "C08": {
         "models": AUTH_MODELS,
         "drivers": [],
